@@ -170,6 +170,25 @@ pub fn strata(quick: bool) -> Vec<Stratum> {
         max_depth: 5,
         wraps: vec![],
     };
+    // S10: case inside case (in branches, in the default part, after earlier branches), two literals only
+    let cases = Grammar {
+        atoms: if quick { vec![N::Int(0)] } else { vec![N::Int(0), N::Int(1)] },
+        if_: false,
+        if_else: false,
+        case_arms: 1,
+        until: false,
+        while_: false,
+        repeat: false,
+        do_: false,
+        do_ranges: vec![],
+        defs: vec![],
+        locals: vec![],
+        vars: vec![],
+        index_words: false,
+        breaks: false,
+        max_depth: 3,
+        wraps: vec![],
+    };
     let mut body = body;
     let mut skel = skel;
     if quick {
@@ -185,6 +204,7 @@ pub fn strata(quick: bool) -> Vec<Stratum> {
         Stratum { name: "S5-definitions", gr: defs, g0: G::top(), wrap: id, max_nodes: if quick { 5 } else { 7 } },
         Stratum { name: "S6-nested-definition-names", gr: shadow, g0: shadow_g0, wrap: wrap_shadow, max_nodes: if quick { 5 } else { 7 } },
         Stratum { name: "S8-mixed-loop-nesting", gr: mixed, g0: G::top(), wrap: id, max_nodes: if quick { 5 } else { 6 } },
+        Stratum { name: "S10-nested-case", gr: cases, g0: G::top(), wrap: id, max_nodes: 9 },
     ]
 }
 
@@ -531,6 +551,63 @@ pub fn run(cfg: &Cfg) -> i32 {
             ("wall_s", J::F(t0.elapsed().as_secs_f64())),
         ]));
         println!("C01 S9-caller-callee: {} x {} = {} programs, {:.1}s", callees.len(), callers.len(), n9.load(Ordering::Relaxed), t0.elapsed().as_secs_f64());
+    }
+    // ---- S11: declarations skipped by an untaken branch. A definition declares 0..3 locals inside a
+    // branch and 1..2 after it; every local is read at the end (one read per program plus all of the
+    // later ones); the branch is taken or not. (Reads of skipped locals are judged by the unset-local rule.)
+    if only.as_deref().map(|o| o.starts_with("S11")).unwrap_or(true) {
+        let t0 = std::time::Instant::now();
+        let base = boot();
+        let inner: [&'static str; 3] = ["a", "b", "c"];
+        let later: [&'static str; 2] = ["d", "e"];
+        let mut n11 = 0u64;
+        let mut local: BTreeMap<String, u64> = BTreeMap::new();
+        for taken in [true, false] {
+            for ni in 0..=3usize {
+                for nl in 1..=2usize {
+                    for else_branch in [false, true] {
+                        // which names are read at the end: each single name, and all later ones
+                        let mut read_sets: Vec<Vec<&'static str>> = vec![later[..nl].to_vec()];
+                        for nm in inner[..ni].iter().chain(later[..nl].iter()) {
+                            read_sets.push(vec![*nm]);
+                        }
+                        for reads in read_sets {
+                            let mut branch: Vec<N> = vec![];
+                            for (i, nm) in inner[..ni].iter().enumerate() {
+                                branch.push(N::Int(10 + i as i64));
+                                branch.push(N::Local(nm));
+                            }
+                            let mut body: Vec<N> = vec![N::Flag(taken), N::If(branch, if else_branch { Some(vec![N::Int(0), N::Prim("drop")]) } else { None })];
+                            for (i, nm) in later[..nl].iter().enumerate() {
+                                body.push(N::Int(20 + i as i64));
+                                body.push(N::Local(nm));
+                            }
+                            for nm in &reads {
+                                body.push(N::Name(nm));
+                            }
+                            let whole = vec![N::Def("g", body), N::Name("g")];
+                            let cr = check_program(&base, &whole);
+                            n11 += 1;
+                            if let Some(why) = cr.skipped {
+                                bump(&mut local, &format!("skipped:{}", why));
+                                continue;
+                            }
+                            bump(&mut local, &format!("outcome:{}", cr.mclass));
+                            if !cr.agree {
+                                let key = format!("{}->{}|skipped-declarations", cr.mclass, cr.iclass);
+                                rep.report_w(&key, (sz(&whole) * 1000 + source(&whole).len()) as u64, || {
+                                    jo(vec![("kind", js("eval")), ("stratum", js("S11-skipped-declarations")), ("source", js(source(&whole))), ("insn_limit", ji(LIMIT)), ("difference", js(cr.detail.clone()))])
+                                });
+                            }
+                        }
+                    }
+                }
+            }
+        }
+        outcomes.merge(&local);
+        total_eval.fetch_add(n11, Ordering::Relaxed);
+        per_stratum.push(jo(vec![("stratum", js("S11-skipped-declarations")), ("programs", ji(n11)), ("wall_s", J::F(t0.elapsed().as_secs_f64()))]));
+        println!("C01 S11-skipped-declarations: {} programs, {:.1}s", n11, t0.elapsed().as_secs_f64());
     }
     // ---- S7: a later source never sees loop indices of an earlier one, however that one ended
     // (structurally a new source starts outside every loop): after every program of the counted-loop
